@@ -423,3 +423,25 @@ def gen_lock_sites():
         for f, fn, fl, no, k, r, mx, rw in marks) + "]\n\n"
     out += "end XV.Gen.LockSites\n"
     return out
+
+
+# ---- C19 (builder) ----
+# ------------------------------------------------------------------ C19: XMLErrs enum values (severity bounds)
+@translate.register("ErrCodes")
+def gen_errcodes():
+    rel = "framework/XMLErrorCodes.hpp"
+    t = strip_c_comments(src(rel))
+    m = re.search(r"enum\s+Codes\s*\{(.*?)\}", t, flags=re.S)
+    if not m:
+        raise TranslateError("enum Codes not found in " + rel)
+    vals = {}
+    for name, v in re.findall(r"\b([A-Za-z_][A-Za-z0-9_]*)\s*=\s*([0-9xXa-fA-F]+)", m.group(1)):
+        vals[name] = c_int(v)
+    out = HEADER + "namespace XV.Gen.ErrCodes\n\n"
+    for nm in ("W_LowBounds", "W_HighBounds", "E_LowBounds", "E_HighBounds", "F_LowBounds", "F_HighBounds",
+               "EntityExpansionLimitExceeded", "RecursiveEntity", "EntityNotFound"):
+        if nm not in vals:
+            raise TranslateError("%s: enumerator %s not found" % (rel, nm))
+        out += "def %s : Nat := %d\n" % (nm, vals[nm])
+    out += "\nend XV.Gen.ErrCodes\n"
+    return out
